@@ -14,11 +14,14 @@ interleaving of AddFlow / Rollover with or without sink / EmitFlowCollections):
   for a range that is exactly one retained bucket is the sum of the accepted flows of that bucket
   (`query_eq_sum_retained_partial`), and for ANY range is the sum over the retained buckets wholly inside
   the range of the accepted flows of each bucket (`query_eq_sum_retained`; bucket granularity: a range
-  bound inside a bucket excludes that bucket, as the code does).
+  bound inside a bucket excludes that bucket, as the code does); conversely every key with a retained
+  accepted flow in range has a row (`list_complete`).
 * emission (after /repo 6722529): the walk terminates by its own test (`emit_walk_terminates`); every
   collection handed to the sink consists of buckets that are not yet pushed, collections of one emission
   are pairwise disjoint and never contain the head bucket, and all their buckets are pushed afterwards
-  (`emit_at_most_once`, `rollover_emit_at_most_once`): no bucket is handed to the sink twice; a built
+  (`emit_at_most_once`, `rollover_emit_at_most_once`: per emission), and over whole histories the ghost
+  list of emitted bucket start times never repeats (`emitted_at_most_once_history`): no bucket is handed
+  to the sink twice; a built
   collection carries for each key the sum of its windows inside the collection's time window
   (`emitted_window_complete_partial`).
 KNOWN FINDING kept: late flows accepted into an already emitted window are counted by `List` but never
@@ -180,6 +183,17 @@ theorem query_eq_sum_retained (n : Nat) (interval now : Int) (pushAfter agg : Na
   intro s hx
   exact list_eq_sum_buckets (grun_qinv (newRing_qinv n interval now pushAfter agg hn hi) ops) gte lt x hx
 
+/-- `list_complete` (the converse of `query_eq_sum_retained`): in every reachable state, a key that has an
+accepted flow whose bucket is still in the ring and lies wholly inside the requested range (`0` = unbounded)
+does get a row in `List` — no retained key is silently omitted. -/
+theorem list_complete (n : Nat) (interval now : Int) (pushAfter agg : Nat) (hn : 0 < n) (hi : 0 < interval)
+    (ops : List Op) (gte lt : Int) (e : Nat × Int × Int) (i : Nat) :
+    let s := grun (newRing n interval now pushAfter agg, []) ops
+    e ∈ s.2 → i < s.1.n → (s.1.bucket i).contains e.2.1 = true → bucketIn gte lt (s.1.bucket i) = true →
+    ∃ x ∈ s.1.list gte lt, x.1 = e.1 := by
+  intro s he hlt hc hin
+  exact list_complete_of_cinv (grun_cinv (newRing_cinv n interval now pushAfter agg hn hi) ops) gte lt e he i hlt hc hin
+
 /-! ## emission -/
 
 /-- PARTIAL at-most-once: every bucket of a collection handed to the sink is marked pushed, and a window
@@ -237,6 +251,27 @@ theorem emit_at_most_once (n : Nat) (interval now : Int) (pushAfter agg : Nat) (
     refine List.Pairwise.sublist hsub ?_
     rw [List.pairwise_reverse]
     exact hd.1.imp (fun h => disjoint_symm h)
+
+/-- History level: run any history and record, in a ghost list, the start time of every bucket of every
+collection handed to the sink (by `EmitFlowCollections` or by `Rollover(sink)`; `estep`). That list never
+contains a start time twice: no bucket — a bucket incarnation is identified by its start time, every reset
+gives it a new, larger one — is handed to the sink twice, for every ring size / interval / pushAfter /
+bucketsToAggregate. -/
+theorem emitted_at_most_once_history (n : Nat) (interval now : Int) (pushAfter agg : Nat) (hn : 0 < n) (hi : 0 < interval)
+    (ops : List Op) :
+    (erun (newRing n interval now pushAfter agg, []) ops).2.Nodup :=
+  (erun_estate (newRing_estate n interval now pushAfter agg hn hi) ops).2.2.nodup
+
+/-- the ghost run is the real run: `estep` moves the ring exactly like `gstep` (it only observes) -/
+theorem erun_ring (s : Ring × List Int) (l : Log) (ops : List Op) : (erun s ops).1 = (grun (s.1, l) ops).1 := by
+  induction ops generalizing s l with
+  | nil => rfl
+  | cons op ops ih =>
+    show (erun (estep s op) ops).1 = (grun (gstep (s.1, l) op) ops).1
+    rw [ih (estep s op) (gstep (s.1, l) op).2, estep_ring s l op]
+
+-- non-vacuity: in this history the sink is handed the buckets starting at 1328 and 1333, once
+example : (erun (newRing 7 5 1333 0 2, []) [.add 0 1334 7, .add 2 1340 4, .roll true, .roll true, .emit]).2 = [1328, 1333] := by decide
 
 /-- the same for the emission made by `Rollover(sink)`: the collections consist of buckets that are
 unpushed in the ring right after the head moved (`rolled`), and are pushed in the result. -/
